@@ -2,6 +2,7 @@ import PieModel.Props.C05
 import PieModel.Props.C05Inv
 import PieModel.Props.C05Static
 import PieModel.Props.C20Trans
+import PieModel.Props.ScriptCov
 #print axioms PieModel.C05_read_hidden_abort
 #print axioms PieModel.C05_read_hidden_iff
 #print axioms PieModel.C05_read_abort_kinds
@@ -44,3 +45,6 @@ import PieModel.Props.C20Trans
 #print axioms PieModel.C05_trans_noHidden_history_partial
 #print axioms PieModel.C05_trans_prefix_noHidden_history
 #print axioms PieModel.C05_trans_noHidden_history_FALSE
+#print axioms PieModel.C05_trans_scripts_noHidden_anySem
+#print axioms PieModel.C05_trans_scripts_noHidden
+#print axioms PieModel.C05_trans_scripts_noHidden_abort_free
